@@ -7,7 +7,9 @@ through its option, a config, an object, the environment or the enclosing group 
 Model: coq/Model/C15Links.v, spec: coq/Spec/C15Spec.v, judge: coq/Corr/C15Judge.v.
 """
 import copy
+import os
 
+from tie import framework
 from tie.framework import g_bool, g_list, g_N, g_nat, g_opt, g_pair, g_str, run_impl_parallel
 
 PROP = "C15"
@@ -26,6 +28,9 @@ TRUSTED = [
     "the 9 compute functions exist twice: Python (c15_links.py FUNCTIONS_SRC) and Gallina (C15Judge.fn_interp); "
     "their agreement is exercised by every case, the theorems quantify over ALL functions",
     "hand-written model coq/Model/C15Links.v, tied by per-case agreement evaluated inside Coq",
+    "probe_fixes (tie/props/c15.py): the two refutation witnesses are run on the implementation to select the model "
+    "variant (faithful-to-the-bug or repaired, both in Model/C15Links.v) it is tied to; a wrong selection shows up as "
+    "model disagreements, never as a pass",
 ]
 ASSUMPTIONS = [
     "value space of the tie: ints, lower-case words that YAML reads as strings, lists of ints, None, nested groups; "
@@ -37,6 +42,66 @@ ASSUMPTIONS = [
 ]
 EXHAUSTIVE = {"quick": False, "thorough": False}
 FINDING_CLASSES = {1: "link-key-prefix-overlap", 2: "list-item-target-in-dump"}
+
+# Which repairs (fixes/C15-<key>.patch) the implementation under test carries. None = decide by probing: a repair counts as
+# present exactly when the refutation witness of its finding (replays/known/C15-<key>.json, Proofs/C15Witness.v) no longer
+# reproduces on the implementation. The answer only selects between the faithful-to-the-bug and the repaired variant of the
+# model (Model/C15Links.v build / build_fixed, strip / strip_fixed; judge field c_fixed); every case is still judged
+# against the selected model AND the spec. True/False pins the variant; VERIF_C15_FIXED=prefix,dump (or empty) overrides.
+FIXES_APPLIED = {"link-key-prefix-overlap": None, "list-item-target-in-dump": None}
+_PROBE = {}
+
+
+def _decl(key, kind, default=None, required=False):
+    return {"key": key, "kind": kind, "default": default, "required": required}
+
+
+PROBES = {
+    "link-key-prefix-overlap": dict(
+        decls=[_decl("g.x", "int", 1), _decl("g.y", "int", 2), _decl("t", "int"), _decl("a", "int", 10)],
+        links=[{"src": ["g"], "tgt": "t", "fn": 6}, {"src": ["a"], "tgt": "g.x", "fn": None}],
+        aspect=0, full=True, mode="args", env=[], argv=[], obj={}),
+    "list-item-target-in-dump": dict(
+        decls=[_decl("u", "int", 7), _decl("cs", "classlist", [])],
+        links=[{"src": ["u"], "tgt": "cs.init_args.q", "fn": None}],
+        aspect=1, full=False, mode="args", env=[],
+        argv=[["opt", "cs", [{"class_path": "c15mod.Base", "init_args": {}}]]], obj={}),
+}
+
+
+def probe_fixes():
+    if framework.REPO not in _PROBE:
+        keys = list(PROBES)
+        res = run_impl_parallel("c15_links.py", [{"cases": [PROBES[k] for k in keys], "classes": CLASSES}])[0]
+        o1, o2 = res
+        prefix = o1["build"] == [0, 1]                       # the overlapping second call raises ValueError
+        dump = False
+        if o2["dump"] is not None:
+            items = unc(o2["dump"]).get("cs") or []
+            dump = bool(items) and all("q" not in (it.get("init_args") or {}) for it in items)
+        _PROBE[framework.REPO] = {"link-key-prefix-overlap": prefix, "list-item-target-in-dump": dump}
+    return _PROBE[framework.REPO]
+
+
+def fixes_present():
+    env = os.environ.get("VERIF_C15_FIXED")
+    if env is not None:
+        parts = {x.strip() for x in env.split(",") if x.strip()}
+        return {"link-key-prefix-overlap": "prefix" in parts, "list-item-target-in-dump": "dump" in parts}
+    out = {}
+    for k, v in FIXES_APPLIED.items():
+        out[k] = probe_fixes()[k] if v is None else bool(v)
+    return out
+
+
+def fixed_mask():
+    f = fixes_present()
+    return (1 if f["link-key-prefix-overlap"] else 0) | (2 if f["list-item-target-in-dump"] else 0)
+
+
+def extra_coverage(tier):
+    return {"model_variant": {k: ("repaired" if v else "pinned") for k, v in fixes_present().items()}}
+
 
 REQ = "__required__"
 CLASSES = {
@@ -422,10 +487,10 @@ def term(case, obs):
         items = ["(Opt %s %s)" % (g_key(it[1]), g_val(it[2])) if it[0] == "opt" else "(Cfg %s)" % g_val(it[1]) for it in case["argv"]]
         inp = "(InArgs %s %s)" % (env, g_list(items, "item"))
     rp = obs["reparse"]
-    return ("{| c_classes := %s; c_decls := %s; c_links := %s; c_input := %s; c_full := %s; c_aspect := %s; "
+    return ("{| c_classes := %s; c_decls := %s; c_links := %s; c_input := %s; c_full := %s; c_aspect := %s; c_fixed := %s; "
             "o_build := %s; o_required := %s; o_pre := %s; o_parse := %s; o_dump := %s; o_reparse := %s |}") % (
         _CLASSES_TERM, g_list([g_decl(d) for d in case["decls"]], "decl"), g_list(links, "link"), inp,
-        g_bool(case["full"]), g_N(case["aspect"]),
+        g_bool(case["full"]), g_N(case["aspect"]), g_N(fixed_mask()),
         g_list([g_N(b) for b in obs["build"]], "N"), g_list([g_key(k) for k in obs["required"]], "key"),
         g_opt(None if obs["pre"] is None else g_val(obs["pre"])), g_pres(obs["parse"]),
         g_opt(None if obs["dump"] is None else g_val(obs["dump"])), g_opt(None if rp is None else g_pres(rp)))
@@ -497,7 +562,35 @@ def shrink(case):
 
 
 META = {
-    "level_text": "see notes/C15.md",
-    "level_note": "see notes/C15.md",
-    "technique": "Rocq proof (frame lemmas over an ordered nested map, induction over the link list) + correspondence evaluated in Coq",
+    "level_text": (
+        "Proved in Rocq for ALL declarations, link_arguments call sequences, compute functions (a universally quantified "
+        "interpretation fn), inputs and configurations of the model coq/Model/C15Links.v (Properties/C15.v): "
+        "C15_link_invariant / C15_link_invariant_any_channel — after every successful parse each accepted link holds: its "
+        "compute function succeeds on the FINAL source values and the target holds exactly the result, whatever was supplied "
+        "for the target and from whatever configuration the link phase starts (guard: no key-prefix overlap among the "
+        "accepted links, the listed finding; C15_fixed_link_invariant* has no guard for the repaired _initial_input_checks); "
+        "C15_link_invariant_list_items — the same for every item of a list of classes; C15_no_chain and C15_links_commute — "
+        "what _initial_input_checks establishes and why it is needed; C15_target_not_required; C15_target_option_rejected; "
+        "C15_target_absent_from_dump and C15_dump_changes_only_targets (strip_link_target_keys, any configuration); "
+        "C15_reparse_restores_target (two successful parses with equal source values give the same target); "
+        "C15_link_key_prefix_overlap_refuted and C15_list_item_target_in_dump_refuted — kernel-evaluated inputs on which "
+        "the unrepaired code violates the property; C15_fixed_dump_list_items_clean for the repaired strip. "
+        "Examples show each hypothesis satisfiable by a non-trivial parser/input."),
+    "level_note": (
+        "The theorems are about the hand-written Gallina model, which is written in the shape of _link_arguments.py (bugs "
+        "included) and tied to the real code by the correspondence only: every generated case runs the real parser and Coq "
+        "checks that the model reproduces which link_arguments calls raise, required_args, the pre-link configuration, the "
+        "parse result, the dump and the re-parse (plain-argument parsers: whole pipeline defaults->env->argv/--cfg/"
+        "parse_object->links->validate; parsers with class-typed arguments: from the observed pre-link configuration on, "
+        "class-value normalisation being C14's subject), and independently that the observation satisfies Spec/C15Spec.v. "
+        "Only exercised, not proved: that dump->parse preserves the SOURCE values (C01's subject), type adaptation (identity "
+        "on the tie's value space), env/argv text rendering, subcommands, apply_on='instantiate' (C16), whole-class targets, "
+        "Namespace->dict conversion by type hint, compute functions with side effects. Trusted: Coq kernel/vm_compute, the "
+        "runner tie/impl/c15_links.py (hooks apply_parsing_links in the harness process to read the pre-link configuration), "
+        "the Python/Gallina twins of the 9 tie compute functions."),
+    "technique": (
+        "Rocq proof: frame lemmas for get/set/pop over an ordered nested map, invariant preserved by induction over the "
+        "link_arguments calls (well-formedness, no equal-key chains, marks, required set) and over the applied link list "
+        "(links_commute), kernel-evaluated counterexample witnesses; correspondence (seeded generated parsers x inputs, "
+        "model agreement and spec agreement evaluated inside Coq by vm_compute)"),
 }
